@@ -21,7 +21,7 @@ def _alarm(signum, frame):
     raise _Timeout()
 
 
-def guarded(fn, secs=2):
+def guarded(fn, secs=20):
     signal.signal(signal.SIGALRM, _alarm)
     signal.setitimer(signal.ITIMER_REAL, secs)
     try:
